@@ -315,7 +315,17 @@ def enumeration(rnd, acc, sample=False):
         if cands:
             d = rnd.choice(cands)
             others = [trees.mod_of("proj", f) for f in spec["files"] if f.endswith(".py") and not f.startswith(d + "/") and all(p.isidentifier() for p in f[:-3].split("/"))]
-            spec["files"][d + ".py"] = "\n".join(f"import {t}" for t in rnd.sample(others, min(2, len(others)))) + "\nshadow = 1\n"
+            lines = [f"import {t}" for t in rnd.sample(others, min(2, len(others)))]
+            kids = [trees.mod_of("proj", f) for f in spec["files"] if f.startswith(d + "/") and f.endswith(".py") and f.count("/") == d.count("/") + 1 and all(p.isidentifier() for p in f[:-3].split("/"))]
+            if kids:
+                # the shadowing file imports a child of the package of the same name, and so does somebody else
+                kid = rnd.choice(kids)
+                lines.insert(rnd.randint(0, len(lines)), f"import {kid}")
+                other_files = sorted(f for f in spec["files"] if f.endswith(".py") and not f.startswith(d + "/"))
+                if other_files:
+                    f2 = rnd.choice(other_files)
+                    spec["files"][f2] = f"import {kid}\n" + spec["files"][f2]
+            spec["files"][d + ".py"] = "\n".join(lines) + "\nshadow = 1\n"
             acc.count("enumeration_trees_with_file_beside_package")
     root = trees.write_tree(spec)
     case = {"kind": "enumeration", "spec": spec}
